@@ -137,40 +137,58 @@ def overlaps(a, b):
 
 
 def property_oracle(case, flat, out) -> list[str]:
+    """Independent of the model AND of how default transaction numbers are chosen: transactions are
+    identified by the yield structure (explicit number -> one transaction per (group, number); no number -> a
+    transaction of its own), applied rewrites are matched to them by (group, range, text)."""
     problems = []
-    start = -100000000
-    cnt = start
     tx: dict = {}
+    order = []
     for gi, g in enumerate(case["groups"]):
-        for (s, e, text, tr) in g:
-            cnt += 1
-            key = (gi, tr if tr is not None else cnt)
+        for idx, (s, e, text, tr) in enumerate(g):
+            key = ("e", gi, tr) if tr is not None else ("d", gi, idx)
+            if key not in tx:
+                order.append(key)
             tx.setdefault(key, []).append(((s, e), text))
-    got: dict = {}
+    applied_by_group: dict = {}
     for (g, t, s, e, new) in flat:
-        got.setdefault((g, t), []).append(((s, e), new))
-    # (a) atomicity
-    for key, items in got.items():
-        if key not in tx:
-            problems.append(f"scheduled entry of unknown transaction {key}")
-        elif sorted(set(items)) != sorted(set(tx[key])) or len(items) != len(set(tx[key])):
-            problems.append(f"transaction {key} applied partially: {items} of {tx[key]}")
+        applied_by_group.setdefault(g, []).append(((s, e), new))
     # (b) disjointness
     for i in range(len(flat)):
         for j in range(i + 1, len(flat)):
             if overlaps(flat[i][2:4], flat[j][2:4]):
                 problems.append(f"overlapping applied rewrites {flat[i]} {flat[j]}")
-    # (c) a transaction is dropped only for one of the four stated reasons
-    for key in sorted(tx):
-        if key in got:
-            continue
+    # every applied rewrite was yielded by its group
+    for g, items in applied_by_group.items():
+        yielded = [it for k in tx if k[1] == g for it in tx[k]]
+        for it in items:
+            if it not in yielded:
+                problems.append(f"applied rewrite {it} of group {g} was never yielded")
+    # (a) atomicity + (c) justified drops
+    status = {}
+    for key in order:
         items = sorted(set(tx[key]))
+        app = applied_by_group.get(key[1], [])
+        present = [it for it in items if it in app]
+        status[key] = "all" if len(present) == len(items) else ("none" if not present else "partial")
+    for key in order:
+        items = sorted(set(tx[key]))
+        if status[key] == "partial":
+            # a rewrite may also be present because an identical rewrite of ANOTHER transaction of the same group
+            # was applied; only report when no such explanation exists
+            others = [it for k in order if k != key and k[1] == key[1] and status[k] == "all" for it in tx[k]]
+            missing = [it for it in items if it not in applied_by_group.get(key[1], [])]
+            extra = [it for it in items if it in applied_by_group.get(key[1], []) and it not in others]
+            if missing and extra:
+                problems.append(f"transaction {key} applied partially: applied {extra}, missing {missing}")
+            continue
+        if status[key] == "all":
+            continue
         rs = [r for r, _ in items]
         self_ov = any(overlaps(rs[i], rs[j]) for i in range(len(rs)) for j in range(i + 1, len(rs)))
-        dup = any(k2 < key and tx[k2] == tx[key] for k2 in tx)
-        prec = any(k2 < key and any(overlaps(r, r2) for r in rs for (r2, _) in got[k2]) for k2 in got)
+        dup = any(k2 != key and k2[1] <= key[1] and sorted(set(tx[k2])) == items for k2 in order)
+        sched_ov = any(overlaps(r, (f[2], f[3])) for r in rs for f in flat if f[0] <= key[1])
         ign = any(overlaps(r, l) for r in rs for l in map(tuple, case["ilines"]))
-        if not (self_ov or dup or prec or ign):
+        if not (self_ov or dup or sched_ov or ign):
             problems.append(f"transaction {key} dropped without a stated reason: {tx[key]}")
     # (d)+(e) text: splice of the applied rewrites, or untouched source when that does not parse
     cand = py_splice(case["source"], flat)
